@@ -21,7 +21,7 @@ extern "C" { extern unsigned long long ZSTD_verif_probe[16]; }
 static uint32_t g_rr = 0;
 static uint32_t tape_choice(void* op, uint32_t n) { vf::Tape* t = (vf::Tape*)op; if (t->exhausted()) return (g_rr++ * 7 + 3) % n; return (uint32_t)t->range(0, n - 1); }
 
-struct FrameOut { std::vector<uint8_t> bytes; bool ok = true; std::string err; unsigned calls = 0, starved_calls = 0; };
+struct FrameOut { std::vector<uint8_t> bytes; bool ok = true; std::string err; unsigned calls = 0, starved_calls = 0, midframe_updates = 0; };
 
 // one frame through compressStream2 with a generated history; `abandon_after` >= 0 abandons the frame after that many calls
 static void mt_frame(vf::Ctx& c, ZSTD_CCtx* cctx, const std::vector<uint8_t>& x, FrameOut& fo, int abandon_after) {
@@ -47,6 +47,14 @@ static void mt_frame(vf::Ctx& c, ZSTD_CCtx* cctx, const std::vector<uint8_t>& x,
         if (ending) dir = ZSTD_e_end;
         if (stall >= 1 && cap == 0) cap = 1 + (size_t)t.range(0, 2000);
         if (t.exhausted()) { if (!ending) c.label("frames_finished_by_tape_exhaustion"); slice = std::min<size_t>(remaining, 50000); dir = slice == remaining ? ZSTD_e_end : ZSTD_e_continue; cap = 30000; }
+        if (fo.calls > 0 && !ending && !t.exhausted() && t.chance(6)) {
+            // zstd.h: with nbWorkers >= 1 the level and the search parameters may be updated in the middle of a frame (applied to
+            // the following jobs); the frame header, already written, keeps its window
+            int nl = (int)t.irange(-3, 9);
+            size_t ur = ZSTD_CCtx_setParameter(cctx, ZSTD_c_compressionLevel, nl);
+            VF_CHECK(c, !ZSTD_isError(ur), "updating the compression level mid-frame (nbWorkers >= 1) refused: %s", ZSTD_getErrorName(ur));
+            fo.midframe_updates++; c.label("midframe_level_updates");
+        }
         std::vector<uint8_t> ob(cap ? cap : 1);
         ZSTD_inBuffer in = {x.data() + pos, slice, 0};
         ZSTD_outBuffer out = {ob.data(), cap, 0};
